@@ -264,6 +264,36 @@ func H05_resize() {
 	e.s.Fini()
 }
 
+// H05_chanquit: ChannelEvents is cancelled through quit while its consumer is not
+// receiving (the forwarder holds an event it already took off the queue).  Whatever the
+// application polls afterwards is still in posting order - an event is never re-queued
+// behind later ones.
+func H05_chanquit() {
+	e := h01New("xterm-256color", 3, 1, false)
+	for e.s.HasPendingEvent() {
+		e.s.PollEvent()
+	}
+	n := 2 + vsymChoice("n", 3)
+	h05Fill(e, n)
+	ch := make(chan Event, 1)
+	ch <- NewEventInterrupt(nil) // the consumer's channel is full and nobody receives
+	quit := make(chan struct{})
+	go e.s.ChannelEvents(ch, quit)
+	vsymRunBlocked()
+	close(quit)
+	vsymRunBlocked()
+	last := 999
+	for i := 0; i < n+1 && e.s.HasPendingEvent(); i++ {
+		p, ok := e.s.PollEvent().(*h05Ev)
+		vsymAssert(ok, "only posted events are queued")
+		if ok {
+			vsymAssert(p.id > last, "events polled after ChannelEvents was cancelled are in posting order (none re-queued behind later ones)")
+			last = p.id
+		}
+	}
+	e.s.Fini()
+}
+
 // H05_chan: ChannelEvents forwards in order and closes its channel on quit and on Fini.
 func H05_chan() {
 	e := h01New("xterm-256color", 3, 1, false)
